@@ -223,7 +223,7 @@ def run_shards(pid, cases, workdir, preamble_extra="", with_rfc=False, kc_term="
     def write_shard(k, items, show_ids=None):
         path = os.path.join(workdir, "cases_%d%s.v" % (k, "_show" if show_ids else ""))
         with open(path, "w") as fh:
-            fh.write("From HbsLms Require Import Base.Bytes Model.Consts Model.Lmots Gen.Generated Exec.Sha256 Exec.Toy Exec.Runner.\n")
+            fh.write("From HbsLms Require Import Base.Bytes Model.Consts Model.Lmots Gen.Generated Exec.Sha256 Exec.Toy Exec.Keccak Exec.Runner.\n")
             fh.write(preamble_extra)
             fh.write("Local Open Scope N_scope.\n")
             fh.write(ctxs[k].preamble())
@@ -397,6 +397,20 @@ def run_property(pid, tier, seed, replay=None):
         if rcx != 0:
             hb_errors.append("harness family %s exited %d: %s" % (fam["name"], rcx, err[-800:]))
         items += its
+        if prop.get("rerun_process"):
+            # C09: the same calls in ANOTHER PROCESS (other address space layout, pid, start time) must
+            # produce the same bytes: every line of a second run of the family is compared
+            rc2, its2, _ = harness_run(binary, fam["name"], seed, tier, fam.get("args"))
+            same = rc2 == rcx and len(its2) == len(its)
+            first = None
+            if same:
+                for a, b in zip(its, its2):
+                    if a != b:
+                        same, first = False, {"first_run": a, "second_run": b}
+                        break
+            items.append({"k": "oracle", "name": "same_bytes_in_another_process", "ok": same,
+                          "why": "two processes running the same calls produced different outputs",
+                          "lines": [len(its), len(its2)], "difference": first})
         for it in items:
             it["_family"] = fam["name"]
             it["_config"] = config
@@ -425,12 +439,13 @@ def run_property(pid, tier, seed, replay=None):
         kc_of = {fam.get("config", "default"): fam.get("kc", "K_src") for fam in prop["families"]}
         groups = {}
         for cid, it in corr_cases:
-            fam = "toy" if str(it.get("hash", "")).startswith("toy") else "sha"
+            hname = str(it.get("hash", ""))
+            fam = "toy" if hname.startswith("toy") else ("shake" if hname.startswith("shake") else "sha")
             groups.setdefault((it.get("_config", "default"), fam), []).append((cid, it))
         for (cfg_name, fam), group in sorted(groups.items()):
-            m_ids, sh, cerr, r_ids = run_shards(pid, group, os.path.join(CACHE, "cases", pid, cfg_name + ("-toy" if fam == "toy" else "")),
+            m_ids, sh, cerr, r_ids = run_shards(pid, group, os.path.join(CACHE, "cases", pid, cfg_name + ("" if fam == "sha" else "-" + fam)),
                                                 with_rfc=bool(prop.get("rfc")), kc_term=kc_of.get(cfg_name, "K_src"),
-                                                hf_term="toy_n" if fam == "toy" else "sha256_n")
+                                                hf_term={"toy": "toy_n", "shake": "shake256_n", "sha": "sha256_n"}[fam])
             mism_ids += m_ids
             shown += sh
             cerrors += cerr
